@@ -27,6 +27,8 @@ def sh(cmd, cwd):
 def confirm(pid):
     wt, out = f"{root}/{pid}/wt", f"{root}/{pid}/out"
     demo = f"{out}/C_demo_test.go"
+    if not os.path.isdir(wt):
+        return pid, None, "no worktree (already processed)"
     if not (os.path.exists(demo) and os.path.exists(f"{out}/C.diff")):
         return pid, None, "no deliverables"
     sh("git checkout -q -- . && git clean -fdq", wt)
@@ -84,7 +86,7 @@ for pid, res, verdict in results:
     json.dump(meta, open(f"{dst}/meta.json", "w"), indent=1)
     if subprocess.run(f"git -C /repo apply --check {dst}/patch.diff", shell=True).returncode != 0:
         print(pid, "WARNING: patch does not apply to /repo")
-done = {pid for pid, res, verdict in results if verdict != "no deliverables"}  # an agent without deliverables may still be working
+done = {pid for pid, res, verdict in results if not verdict.startswith("no ")}  # an agent without deliverables may still be working
 for pid in sorted(done):
     subprocess.run(f"git -C /repo worktree remove --force {root}/{pid}/wt", shell=True, stdout=subprocess.DEVNULL, stderr=subprocess.DEVNULL)
 subprocess.run("git -C /repo worktree prune", shell=True)
